@@ -1,4 +1,5 @@
 import CorsVerif.Model.Serve
+import CorsVerif.Model.Net
 /-
   Line-protocol codec shared by the driver: hex byte strings, lists, maps, configs, oracles.
   Not part of the model or of any theorem.
@@ -111,10 +112,18 @@ def decOracle (s : String) : Option (List OEntry) :=
       pure { host := h, idna := i, etld := t, ip6 := ip }
     | _ => none
 
+/-- IDNA and the public-suffix list are answered by the real libraries (the table the harness sends);
+IPv6 text is answered by the model of `net/netip` (`Net.ip6`), cross-checked against the table below. -/
 def extOf (tbl : List OEntry) : Ext where
   idnaXn h := match tbl.find? (·.host == h) with | some e => e.idna | none => false
   isETLD h := match tbl.find? (fun e => Pat.trimDot e.host == h) with | some e => e.etld | none => false
-  ip6 h := match tbl.find? (·.host == h) with | some e => e.ip6 | none => none
+  ip6 h := Net.ip6 h
+
+/-- Hosts on which the model of `net/netip` and the library disagree (only hosts the pattern parser
+would hand to the IPv6 branch of `ParseAddr`: the first of `.`, `:`, `%` is `:`). -/
+def ip6Disagreements (tbl : List OEntry) : List Bytes :=
+  tbl.filterMap fun e =>
+    if Pat.firstIPMark e.host == some 58 && Net.ip6 e.host != e.ip6 then some e.host else none
 
 /-- The key under which the model consults the oracle for an origin-pattern string, if any. -/
 def oracleKey (s : Bytes) : Option Bytes :=
